@@ -40,13 +40,27 @@ def run(ck, prog):
         f, code = pair.code_rows(SEQ, "Sequence.kappa")
         ref = pair.ref_rows("Sequence.kappa")
         dom = [Lin({"D": -1}, 0, "<=")]
+        # atoms the table may branch on: D, DM and the length N.  Lemma (DESIGN.md C01): deltaMax() > 0 implies N >= 6 - below 6 residues
+        # every arrangement has delta 0 (blob 6 does not fit; blob 5 fits at most once and a single blob is the whole sequence, so its sigma is
+        # the global sigma) - and every N >= 6 admits sequences with deltaMax() > 0.  Anything else in a condition is not decided here.
+        atoms = set()
+        for conds, _ in code:
+            for c in conds:
+                atoms |= _cond_atoms(c)
+        ck.shape(atoms <= {"D", "DM", "N"}, "kappa: branches on %s besides delta(), deltaMax() and the length" % sorted(atoms - {"D", "DM", "N"}), f.loc())
+        if regime == "DM>0":
+            dom = dom + [Lin({"N": -1}, 6, "<=")]
+        else:
+            dom = dom + [Lin({"N": -1}, 1, "<=")]
         compare_tables(ck, "DT", construct, code, ref, "table[%s]" % regime, where=f.loc(), domain=dom,
                        positive=pos,
                        note="-1 iff deltaMax()==0; else delta()/deltaMax() with (1,1.1) -> 1.0")
         ck.count("kappa paths", len(code))
         if regime == "DM=0":
-            only = len(code) == 1 and isinstance(code[0][1], Rat) and code[0][1].equals(Rat.const(-1))
-            ck.ob("DT", construct, only, expected="single row returning -1", found=[repr(o) for _, o in code],
+            from lcsa.dt import feasible_with
+            live = [(c, o) for c, o in code if feasible_with(c, dom, set(pos)) is not None]
+            only = bool(live) and all(isinstance(o, Rat) and o.equals(Rat.const(-1)) for _, o in live)
+            ck.ob("DT", construct, only, expected="every reachable row returns -1", found=[repr(o) for _, o in live],
                   slot="sentinel-when-undefined", where=f.loc())
         else:
             # -1 is never returned when DM > 0 and D >= 0
@@ -70,6 +84,21 @@ def run(ck, prog):
     check_api(ck, prog, [("get_kappa", "kappa", None), ("get_delta", "delta", None),
                          ("get_deltaMax", "deltaMax", None)])
     ck.floor("kappa paths", ck.analysed.get("kappa paths", 0), 3)
+
+
+def _cond_atoms(c):
+    if isinstance(c, bool):
+        return set()
+    if c[0] == "cmp":
+        return c[1].atoms() | c[3].atoms()
+    if c[0] == "not":
+        return _cond_atoms(c[1])
+    if c[0] in ("and", "or"):
+        out = set()
+        for x in c[1]:
+            out |= _cond_atoms(x)
+        return out
+    return {"?opaque"}
 
 
 def _delta_nonneg(ck, prog):
